@@ -66,11 +66,10 @@ worktree of `/repo` (nothing from `/verif`), asked for a plausible regression th
 114-test baseline keeps passing, with a demonstration program. A change is kept only after I confirmed in a fresh
 scratch worktree that the patch applies, the baseline passes, the demonstration exits 0 without and non-zero with the
 change (`tools/seed_eval.py`, recorded in `seeded/<name>/meta.json`). The check is then run against `/repo` with the
-patch applied (`git -C /repo apply`) and `/repo` is restored straight afterwards. Six rounds were run (`-a` .. `-f`,
-120 changes); later rounds were told to differ from the earlier patches and to need longer histories, more records or rarer
+patch applied (`git -C /repo apply`) and `/repo` is restored straight afterwards. Six full rounds (`-a` .. `-f`, 120 changes) and a partial seventh (`-g`, 8 properties: C01, C05, C07, C09, C12, C13, C16, C18) were run; later rounds were told to differ from the earlier patches and to need longer histories, more records or rarer
 flags, and the fifth round was told outright to aim at what a checker exploring small configurations overlooks (rarely
 used keyword arguments, other overloads and input kinds, size thresholds, stale state after an interleaving), the sixth
-at state and aliasing (second calls, caches, arguments the caller still owns). "first run" says what happened when the change first met the checks as they were then; every miss led to a
+at state and aliasing (second calls, caches, arguments the caller still owns); the seventh asked for mechanisms other than the obvious ones (7 of 8 reported at first run, C16-g after the 'warm' bulk-history jobs). "first run" says what happened when the change first met the checks as they were then; every miss led to a
 strengthening of the check (bounds, fixtures, stubs or engine), after which the *quick* tier reports the change with a
 counterexample replayed on the real stack.
 
